@@ -22,6 +22,7 @@ import (
 	"github.com/influxdata/influxdb/pkg/file"
 	"github.com/influxdata/influxdb/pkg/limiter"
 	"github.com/influxdata/influxdb/pkg/metrics"
+	"github.com/influxdata/influxdb/pkg/verifhook"
 	"github.com/influxdata/influxdb/query"
 	"github.com/influxdata/influxdb/tsdb"
 	"go.uber.org/zap"
@@ -781,6 +782,7 @@ func (f *FileStore) replace(oldFiles, newFiles []string, updatedFn func(r []TSMF
 			if err := os.Rename(oldName, newName); err != nil {
 				return err
 			}
+			verifhook.Fire("fs.renamed", newName)
 		}
 
 		// Any error after this point should result in the file being bein named
@@ -882,6 +884,7 @@ func (f *FileStore) replace(oldFiles, newFiles []string, updatedFn func(r []TSMF
 					}
 
 					inuse = append(inuse, file)
+					verifhook.Fire("fs.removed", remove)
 					continue
 				}
 
@@ -892,6 +895,7 @@ func (f *FileStore) replace(oldFiles, newFiles []string, updatedFn func(r []TSMF
 				if err := file.Remove(); err != nil {
 					return err
 				}
+				verifhook.Fire("fs.removed", remove)
 				break
 			}
 		}
@@ -904,6 +908,7 @@ func (f *FileStore) replace(oldFiles, newFiles []string, updatedFn func(r []TSMF
 	if err := file.SyncDir(f.dir); err != nil {
 		return err
 	}
+	verifhook.Fire("fs.synced", f.dir)
 
 	// Tell the purger about our in-use files we need to remove
 	f.purger.add(inuse)
